@@ -271,7 +271,7 @@ func c10(e *Env) {
 	e.versionTables()
 	c.Floor("canonical-order", 3)
 	c.Floor("write-ownership", 36)
-	e.keepRules("write-ownership", "names-readers", "encode-order", "encode-emission", "encode-guard", "encode-emissions", "encode-error", "encode-nil", "string-is-encode", "code-table", "parse", "canonical-order", "version-table", "constructor-default", "wiring", "arm-parser")
+	e.keepRules("write-ownership", "names-readers", "encode-order", "encode-emission", "encode-guard", "encode-emissions", "encode-error", "encode-nil", "string-is-encode", "code-table", "parse", "canonical-order", "version-table", "version-prefix", "constructor-default", "wiring", "arm-parser")
 	c.Floor("encode-order", 6)
 	c.Floor("encode-emission", 36)
 	c.Floor("encode-guard", 36)
@@ -298,7 +298,7 @@ func c11(e *Env) {
 	e.keepRules("parse", "token-split-kind", "sentinel-pairing", "deferred-error", "reject-path", "sentinel-provenance", "sentinel-distinct", "version-prefix", "duplicate-test", "token-shape", "decode-one", "decoder-analysis", "table-immutability", "group-emptiness")
 	c.Floor("sentinel-pairing", 90)
 	c.Floor("deferred-error", 6)
-	c.Floor("sentinel-provenance", 25)
+	c.Floor("sentinel-provenance", 18) // shared helpers (one decode loop for three levels) reduce the number of functions that return errors
 	c.Floor("sentinel-distinct", 11)
 }
 
@@ -494,7 +494,7 @@ func (e *Env) singleSentinelSeen(bld *ir.Builder, v ssa.Value, depth int, seen m
 	case *ssa.Call:
 		callee := x.Call.StaticCallee()
 		if callee == nil {
-			return false
+			return e.handedErrorSource(x)
 		}
 		if callee.String() == "github.com/goark/errs.Wrap" {
 			if len(x.Call.Args) == 0 {
@@ -520,7 +520,72 @@ func (e *Env) singleSentinelSeen(bld *ir.Builder, v ssa.Value, depth int, seen m
 
 func (e *Env) moduleErrorSource(call *ssa.Call) bool {
 	callee := call.Call.StaticCallee()
+	if callee == nil {
+		return e.handedErrorSource(call)
+	}
 	return callee != nil && callee.Pkg != nil && (callee.Pkg.Pkg.Path() == load.ModPath+"/v3/metric" || callee.Pkg.Pkg.Path() == load.ModPath+"/v2/metric")
+}
+
+// handedErrorSource: the call goes through a function value an unexported helper is handed; it is an error source
+// of the metric packages if every call site of the helper hands it a function or method value of those packages.
+func (e *Env) handedErrorSource(x *ssa.Call) bool {
+	// a call through a function value the (unexported) helper is handed: an error source of the package if
+	// every call site hands it a function or method value of the metric packages
+	pv, isParam := x.Call.Value.(*ssa.Parameter)
+	if !isParam || x.Call.IsInvoke() {
+		return false
+	}
+	fn := pv.Parent()
+	if fn == nil || fn.Object() == nil || fn.Object().Exported() {
+		return false
+	}
+	ci := e.callersOf(fn)
+	if ci == nil || ci.AsValue || len(ci.Callers) == 0 {
+		return false
+	}
+	idx := -1
+	for i, q := range fn.Params {
+		if q == pv {
+			idx = i
+		}
+	}
+	sites := 0
+	for _, caller := range ci.Callers {
+		for _, b := range caller.Blocks {
+			for _, in := range b.Instrs {
+				call, ok := in.(*ssa.Call)
+				if !ok || call.Call.StaticCallee() != fn {
+					continue
+				}
+				if idx < 0 || idx >= len(call.Call.Args) {
+					return false
+				}
+				sites++
+				var target *ssa.Function
+				switch a := call.Call.Args[idx].(type) {
+				case *ssa.Function:
+					target = a
+				case *ssa.MakeClosure:
+					target, _ = a.Fn.(*ssa.Function)
+					if target != nil && strings.HasPrefix(target.Synthetic, "bound method wrapper") {
+						var m *ssa.Function
+						for _, blk := range target.Blocks {
+							for _, bi := range blk.Instrs {
+								if c, ok := bi.(*ssa.Call); ok && c.Call.StaticCallee() != nil {
+									m = c.Call.StaticCallee()
+								}
+							}
+						}
+						target = m
+					}
+				}
+				if target == nil || target.Pkg == nil || (target.Pkg.Pkg.Path() != load.ModPath+"/v3/metric" && target.Pkg.Pkg.Path() != load.ModPath+"/v2/metric") {
+					return false
+				}
+			}
+		}
+	}
+	return sites > 0
 }
 
 // ---------------------------------------------------------------------------
